@@ -597,3 +597,42 @@ def check_c04(tier, t0):
 
 
 CHECKS["C04"] = check_c04
+
+
+# ------------------------------------------------------------------------------------------------
+# C14  option letters
+# ------------------------------------------------------------------------------------------------
+def check_c14(tier, t0):
+    from common import workdir
+    wd = workdir("C14-%s" % tier)
+    # field level: every family x every letter (and a letter outside the family, and the heuristic)
+    cases, n, mc, cfg = run_fieldformats(wd, tier)
+    out = os.path.join(wd, "variants_out.json")
+    run_harness(["variants", "--cases", cases, "--out", out])
+    s = json.load(open(out))
+    vio = [{"sig": v["sig"], "replay": v["replay"]} for v in s["violations"]]
+    log("[C14] field level: %d probes over %d families (%d contents accepted by several options), %d mismatch signatures" %
+        (s["evaluated"], s["families"], s["ambiguous_contents"], len(vio)))
+    # message level: every option letter of the family in every position where the family occurs
+    r = msglevel.run_pipeline("C14", tier)
+    p = r["summary"]["props"]["C14"]
+    vio += p["violations"]
+    log("[C14] message level: %d option-letter substitutions in layout positions, %d parsed as another variant" %
+        (p["evaluated"], len(p["violations"])))
+    cov = _msg_cov(r, "C14", "field level: per option family, every content the FieldFormats shape space puts in the language of one "
+                   "of its options plus hand-picked ambiguous contents, parsed with every letter of the family, with a letter outside "
+                   "it, without letter (heuristic); message level: in every generated walk, every field of an option family gets every "
+                   "other letter of its base tag (mutation 'letter' of MessageParse.tla)")
+    cov["states"] += mc["distinct"]
+    cov["transitions"] += mc["generated"]
+    cov["evaluations"] = s["evaluated"] + p["evaluated"]
+    cov["distinct_nontrivial"] = s["ambiguous_contents"] + p["evaluated"]
+    cov["families"] = s["families"]
+    cov["samples"] = (s["samples"][:3] + p["samples"][:2]) or [{}]
+    assumptions = MSG_ASSUMPTIONS + ["which options accept a content is decided by the options' own struct-level parsers (differential), "
+                                     "so a format defect is reported once, under C05",
+                                     "Field25AccountIdentification is content-discriminated by documentation (tag 25 for both) and excluded"]
+    return report("C14", tier, "model_checking", vio, cov, assumptions, t0)
+
+
+CHECKS["C14"] = check_c14
